@@ -20,6 +20,8 @@ L12 == Lit(VL(<<VI(1), VI(2)>>))
 
 \* the forbidden callable applied to e
 X(kind, e) == IF kind = "fn" THEN Spy("spx", "f1", e) ELSE SpyF("sfx", "f1", e)
+\* the same program with the forbidden function spelled differently (source level: the pieces "spx" are respelled)
+Respell(ps, sp) == [i \in 1..Len(ps) |-> IF "w" \in DOMAIN ps[i] /\ ps[i].w = "spx" THEN W(sp) ELSE ps[i]]
 
 Positions == {"print", "chainfirst", "chainlast", "chainmiddle", "chainupper", "forseq", "apply", "filtarg",
               "fnarg", "ifcond", "set", "arr", "hash", "cond", "incwith", "macroarg", "macrodefault", "binop",
@@ -108,6 +110,16 @@ Cases == {[pos |-> pos, kind |-> kind, route |-> route, pol |-> pol, r2 |-> "non
 PreCases == {[pos |-> pos, kind |-> kind, route |-> route, pol |-> pol, r2 |-> "none", pre |-> pre]
                : pos \in {"print", "forseq", "chainupper", "ifcond", "set"}, kind \in {"fn", "filter"}, route \in {"direct", "include", "extendsblock", "localmacro"},
                  pol \in {"forbid", "allow"}, pre \in Pres \ {"none"}}
+\* a layout that another engine parsed and this engine was given with RegisterTemplate (a shared layout): the sandboxed
+\* template extends it
+ForeignCases == {[pos |-> pos, kind |-> kind, route |-> route, pol |-> pol, r2 |-> "none", fp |-> TRUE]
+                   : pos \in {"print", "forseq", "chainupper", "set"}, kind \in {"fn", "filter"}, route \in {"extendsbody", "extendsblock", "parent"}, pol \in {"forbid", "allow"}}
+\* a policy that is not an allow-list ("everything except ..."): the forbidden function called under another spelling is
+\* either refused or unknown -- it is not run
+Spellings == {"exact", "Spx", "SPX", "sPX"}
+DenyCases == {[pos |-> pos, kind |-> "fn", route |-> route, pol |-> "forbid", r2 |-> "none", deny |-> sp]
+                : pos \in {"print", "forseq", "ifcond", "fnarg", "set"}, route \in {"direct", "include", "extendsblock", "localmacro", "import"}, sp \in Spellings}
+Universe == {"spx", "sfx", "sfz", "sp", "sf", "mm", "mw", "parent", "upper", "default", "lower", "reverse", "trim"}
 Valid(c) ==
     /\ (PreOf(c) = "macrocall" => c.route \in {"direct", "include"})
     /\ (c.pos \in OnlyFilter => c.kind = "filter")
@@ -162,7 +174,8 @@ CaseOf(c) ==
     IN [prop |-> "C06", key |-> ToJson(c),
         tags |-> {"pos:" \o c.pos, "kind:" \o c.kind, "route:" \o c.route, "pol:" \o c.pol, "r2:" \o c.r2, "pre:" \o PreOf(c)},
         entry |-> "main", ctx |-> EmptyFn,
-        cfg |-> [sandbox |-> TRUE, allowf |-> AllowF(c.pol), allowfn |-> AllowFn(c.pol)],
+        cfg |-> [sandbox |-> TRUE, allowf |-> AllowF(c.pol), allowfn |-> AllowFn(c.pol)]
+                @@ (IF "fp" \in DOMAIN c THEN [foreigntp |-> <<"t2">>] ELSE EmptyFn),
         runs |-> {[label |-> "sandbox", tp |-> Sources(Tp(c), LMin), xcalls |-> [id \in {} |-> 0], denyfalse |-> FALSE, then |-> <<>>],
                   [label |-> "denyfalse", tp |-> Sources(Tp(c), LMin), xcalls |-> [id \in {} |-> 0], denyfalse |-> TRUE, then |-> <<>>]}
                  \cup (IF c.pol = "empty" \/ c.pos \in ModCall THEN {} ELSE
@@ -175,9 +188,21 @@ CaseOf(c) ==
                     always |-> IF ref.ok THEN [id \in {} |-> 0]
                                ELSE [id \in {"f1", "o1", "o2"} |-> CountOf(ref.calls, id)]]]
 
-Init == cs \in {c \in Cases \cup PreCases : Valid(c) /\ Ref(c).err # "frag"}
+CaseOfDeny(c) ==
+    LET ref == Ref(c)
+        src == Sources(Tp(c), LMin)
+        tp == IF c.deny = "exact" THEN src ELSE [n \in DOMAIN src |-> IF n = "main" THEN src[n] ELSE Respell(src[n], c.deny)]
+    IN [prop |-> "C06", key |-> ToJson(c),
+        tags |-> {"pos:" \o c.pos, "kind:" \o c.kind, "route:" \o c.route, "pol:deny", "spelling:" \o c.deny},
+        entry |-> "main", ctx |-> EmptyFn,
+        cfg |-> [sandbox |-> TRUE, allowf |-> AllowF(c.pol), allowfn |-> AllowFn(c.pol), denylist |-> TRUE, universe |-> Universe],
+        runs |-> {[label |-> "denylist", tp |-> tp, xcalls |-> [id \in {} |-> 0]]},
+        expect |-> [ok |-> FALSE, out |-> <<>>, err |-> IF c.deny = "exact" THEN ref.err ELSE "any", calls |-> [id \in {} |-> 0],
+                    always |-> [id \in {"f1", "o1", "o2"} |-> CountOf(ref.calls, id)]]]
+
+Init == cs \in {c \in Cases \cup PreCases \cup ForeignCases \cup DenyCases : Valid(c) /\ Ref(c).err # "frag"}
 Next == UNCHANGED cs
 Spec == Init /\ [][Next]_cs
-Emit == PrintT(ToJson(CaseOf(cs)))
+Emit == PrintT(ToJson(IF "deny" \in DOMAIN cs THEN CaseOfDeny(cs) ELSE CaseOf(cs)))
 ModelOK == Confined(cs)
 =============================================================================
